@@ -377,6 +377,12 @@ func genC09(g *Gen, tier string, idx int) *wire.Scenario {
 	default:
 		x.Typed = g.word(false, 5)
 	}
+	if len(x.Typed) > 1 && g.P(25) {
+		// characters that mean something in a regular expression (the substring searches compile one)
+		rt := []rune(x.Typed)
+		rt[g.N(len(rt))] = Pick(g, []rune(".*+?()[\\^$|"))
+		x.Typed = string(rt)
+	}
 	// entries that share only the beginning of what is typed: the ones a search with a shortened
 	// search text would wrongly find
 	if rt := []rune(x.Typed); len(rt) > 1 && g.P(50) {
@@ -406,6 +412,16 @@ func genC09(g *Gen, tier string, idx int) *wire.Scenario {
 		}
 		for i := 0; i < g.N(back+2); i++ {
 			sc.Script = append(sc.Script, tok(g.Cat.ShortSeqFor(km, Pick(g, []string{"forward-char", "forward-char", "end-of-line", "backward-char"})), "point-move"))
+		}
+		// and a search straight from there, with the point (mostly) inside the text
+		if g.P(70) {
+			cmd := Pick(g, []string{"history-search-backward", "history-substring-search-backward", "history-substring-search-backward", "history-search-forward", "history-substring-search-forward"})
+			if seq := g.Cat.ShortSeqFor(km, cmd); seq != "" {
+				sc.Script = append(sc.Script, tok(seq, cmd))
+				if g.P(50) {
+					sc.Script = append(sc.Script, tok(seq, cmd)) // again: the search keeps the point where it was
+				}
+			}
 		}
 	}
 	steps := g.Range(1, 12)
